@@ -36,6 +36,8 @@ func runC03(p *Prog, r *Report) {
 	c08R2(p, r, "C03.R8")
 	patternsUnmodifiedRule(p, r, "C03.R9")
 	candidatesUnfilteredRule(p, r, "C03.R11")
+	registerUpdateRule(p, r, "C03.R12")
+	cloneBeforeExtendRule(p, r, "C03.R13", p.Chains())
 	matchesCompleteRule(p, r, "C03.R10", "the input would be rejected (or converted by a different rule) although the documented rules define it")
 	// R6
 	r.Rule("C03.R6", "generator.Generate returns (nil, err) for a failing converter before any file is rendered (shared with C17.O4)", 1)
